@@ -497,3 +497,58 @@ Example per_node_counter_misroutes :
   map (fun dl => (dconn dl, dreply dl)) (fst (apply_cmds exec_step cbA empty_db [(0, 0, RNil); (0, 0, RNil)]%Z cs))
   = [(Some 7%Z, RSimple (B "PONG")); (Some 7%Z, RInt 1)].
 Proof. vm_compute. reflexivity. Qed.
+
+(* ------------------------------------------------------------------ late results *)
+Lemma alookup_some_in {A} (l : list (bytes * A)) id v : alookup id l = Some v -> In (id, v) l.
+Proof.
+  induction l as [|[k a] r IH]; [discriminate|]. cbn.
+  destruct (bytes_eqb_spec id k) as [->|Hne]; intros H.
+  - inversion H; subst. left. reflexivity.
+  - right. apply IH. exact H.
+Qed.
+
+Lemma apply_cmds_dconn (step : db -> env -> list bytes -> reply * db) cb : forall cs d envs j dl,
+    nth_error (fst (apply_cmds step cb d envs cs)) j = Some dl -> dconn dl = alookup (did dl) cb.
+Proof.
+  induction cs as [|c0 r IH]; intros d envs j dl H.
+  - destruct envs; destruct j; discriminate.
+  - destruct envs as [|e0 er]; [destruct j; discriminate|].
+    cbn [apply_cmds] in H. unfold apply_cmd in H.
+    destruct (step d e0 (snd c0)) as [rp d1].
+    destruct (apply_cmds step cb d1 er r) as [dls d2] eqn:E2.
+    destruct j as [|j]; cbn in H.
+    + inversion H; subst. reflexivity.
+    + specialize (IH d1 er j dl). rewrite E2 in IH. exact (IH H).
+Qed.
+
+(* A connection [c] gave up on its proposal [i] (time-out: the registration under [i] is gone) and now
+   waits for its next proposal [i'] -- its only registration.  Whenever the entry of [i] is applied, its
+   result is delivered to nobody; and everything that is ever delivered to [c] is the result of [i'].
+   So a late result never answers a later command.  (This is what delivery by table lookup under the
+   entry's id gives -- [foreign_reply] + unique ids; it is C14_reply_routed_by_origin seen from the
+   waiter that re-registers.  The implementation facts it stands on: one registration per waiting
+   connection, removed BEFORE the connection does anything else, and a result channel that belongs to
+   ONE proposal.) *)
+Theorem late_result_never_answers_later_command
+        (step : db -> env -> list bytes -> reply * db) cb cs d envs j i i' args e c :
+  ~ In i (map fst cb) -> (forall id, In (id, c) cb -> id = i') ->
+  List.length envs = List.length cs ->
+  nth_error cs j = Some (i, args) -> nth_error envs j = Some e ->
+  (exists r, nth_error (fst (apply_cmds step cb d envs cs)) j = Some (mkDel None i r)) /\
+  (forall k dl, nth_error (fst (apply_cmds step cb d envs cs)) k = Some dl -> dconn dl = Some c -> did dl = i').
+Proof.
+  intros Hgone Honly HL Hj He. split.
+  - exact (foreign_reply step cb cs d envs j i args e Hgone HL Hj He).
+  - intros k dl Hk Hc.
+    rewrite (apply_cmds_dconn step cb cs d envs k dl Hk) in Hc.
+    apply Honly. apply alookup_some_in. exact Hc.
+Qed.
+
+(* with a registration that outlives the give-up (removed only after the reply was written) and one
+   channel per connection, the late result of "i" is handed to the connection while it waits for "i2" *)
+Example stale_registration_answers_next_command :
+  let cs := [(B "i", [B "RPUSH"; B "l"; B "late"]); (B "i2", [B "STRLEN"; B "s"])] in
+  let cb := [(B "i", 7%Z); (B "i2", 7%Z)] in
+  map (fun dl => (dconn dl, did dl, dreply dl)) (fst (apply_cmds exec_step cb empty_db [(0, 0, RNil); (0, 0, RNil)]%Z cs))
+  = [(Some 7%Z, B "i", RInt 1); (Some 7%Z, B "i2", RInt 0)].
+Proof. vm_compute. reflexivity. Qed.
